@@ -52,9 +52,13 @@ Definition reservoir {A} (bnd : nat -> nat) (k : nat) (xs : list A) (cs : list n
     numtrees = 0 with at least one input tree) *)
 Definition reservoir_bounds (bnd : nat -> nat) (k n : nat) : list nat := map bnd (seq k (n - k)).
 
-Definition sample_noreplace {A} := @reservoir A go_bound.
+(** the index expression as it is written in cmd/sample.go and cmd/prune.go today (the per-seed
+    predictions of Judge/C20.v tie it to the binary); one line to change when the code is fixed *)
+Definition code_bound : nat -> nat := go_bound.
+
+Definition sample_noreplace {A} := @reservoir A code_bound.
 Definition random_tips (k : nat) (t : utree) (cs : list nat) : option (list (option string)) :=
-  reservoir go_bound k (tip_names t) cs.
+  reservoir code_bound k (tip_names t) cs.
 
 (** ** cmd/sample.go, replace
 
